@@ -172,13 +172,28 @@ def encIntColumn (allEqual : Bool) (raws : List (Option Int)) (nbits : Nat) : CM
     | some v => catBits [fieldUInt v nbits, fieldUInt 0 6]
   else intColumnBits raws nbits
 
+/-- `_all_ones_as_missing`: in the general (not all-equal) branch an entry that coincides with the
+    all-ones pattern of a field wider than one bit is the missing value -/
+def allOnesAsMissing (n : Nat) (raws : List (Option Int)) : List (Option Int) :=
+  if n ≤ 1 then raws
+  else raws.map fun r => if r = some (((2 ^ n - 1 : Nat) : Int)) then none else r
+
+/-- the general branch after `_all_ones_as_missing`: nothing but missing entries left is written as
+    an all-missing column (minimum all ones, width 0) -/
+def encIntColumnN (allEqual : Bool) (raws : List (Option Int)) (nbits : Nat) : CM Bits :=
+  if allEqual then encIntColumn true raws nbits
+  else
+    let raws' := allOnesAsMissing nbits raws
+    if raws'.all (· == none) then catBits [(do fieldUInt (← missingPattern nbits) nbits), fieldUInt 0 6]
+    else encIntColumn false raws' nbits
+
 def encNumericC (dd : DDesc) (nbits scale ref : Int) (s : St) : CM St := do
   let (c, s) ← nextCol dd s
   let n ← natWidth nbits
   let raws ← (if c.allEqual then c.values.take 1 else c.values).mapM (fun v => match v with
     | .missing => pure none
     | v => do let q ← quantise v scale; pure (some (q - ref)))
-  s.write (encIntColumn c.allEqual raws n)
+  s.write (encIntColumnN c.allEqual raws n)
 
 def encCodeflagC (dd : DDesc) (nbits : Nat) (s : St) : CM St := do
   let (c, s) ← nextCol dd s
@@ -186,7 +201,7 @@ def encCodeflagC (dd : DDesc) (nbits : Nat) (s : St) : CM St := do
     | .missing => pure none
     | .int i => pure (some i)
     | _ => (.error .other : CM (Option Int)))
-  s.write (encIntColumn c.allEqual raws nbits)
+  s.write (encIntColumnN c.allEqual raws nbits)
 
 /-- a column of character fields; `none` = missing -/
 def encStringColumn (allEqual : Bool) (strs : List (Option (List UInt8))) (nbytes : Nat) : CM Bits :=
